@@ -523,7 +523,15 @@ func TestC08(t *testing.T) {
 					if len(data) > 65507 {
 						data = data[:65507]
 					}
-					s.uas[1].sendUDP(l.Addr, l.UDPPort, data)
+					// stop-and-wait: a barrier behind every datagram, so that the listener's
+					// socket buffer never holds more than one (large) datagram - an overflow
+					// would drop the sentinel in the kernel and look like a dead proxy
+					src := s.uas[1]
+					usend := func(b []byte) error { return src.sendUDP(l.Addr, l.UDPPort, b) }
+					usend(data)
+					if _, err := s.in.settle(usend, 0); err != nil {
+						failf(rt, "after the datagram %s: %v", jsonBytes(data[:min(len(data), 300)]), err)
+					}
 				}
 			}
 			if !sentinel(fmt.Sprintf("the batch %v", batch), batch) {
